@@ -1,7 +1,7 @@
 SPECIFICATION Spec
 CONSTANTS
   N = 3
-  Names = {"refs/heads/a", "refs/heads/b"}
+  Names = {"refs/heads/a", "refs/tags/t", "HEAD"}
   MaxPacks = 3
   MaxLen = 5
 INVARIANT ReachablePreserved
